@@ -27,7 +27,7 @@ from pypika_tortoise import queries as Q, terms as T, functions as fn
 from pypika_tortoise.dialects import PostgreSQLQuery, MySQLQuery, SQLLiteQuery, MSSQLQuery, OracleQuery
 
 LEVEL = "proof"
-THEOREMS = ["C13_incomplete_is_empty", "C13_select_clause_order", "C13_update_clause_order", "frame_commute", "C13_footprints_allow_commutation", "C13_wellformed_examples"]
+THEOREMS = ["C13_incomplete_is_empty", "C13_select_clause_order", "C13_update_clause_order", "C13_delete_clause_order", "C13_insert_clause_order", "frame_commute", "C13_footprints_allow_commutation", "C13_wellformed_examples"]
 HEADER = ("From PT Require Import Base.Str Base.Codes Model.Types Ref.Lexer Ref.Clauses.\nOpen Scope N_scope.\n"
           "Definition j (d : dial) (b : bcls) (sql : str) : N := match wellformed d b sql with Some true => 1 | Some false => 0 | None => 2 end.\n")
 FAIL, SEEN = [], {"pairs": 0, "pairs_equal": 0, "incomplete": 0, "accumulate": 0, "sqlite": 0, "table_audited": 0}
